@@ -453,8 +453,16 @@ class Folder(object):
         if isinstance(a, Opaque) or isinstance(b, Opaque):
             return Opaque('binop')
         if isinstance(n.op, ast.Mod) and isinstance(a, str):
+            items = b if isinstance(b, tuple) else (b,)
+            concrete = all(x is None or isinstance(
+                x, (str, bytes, int, float, bool)) for x in items)
             try:
                 return a % (b,) if not isinstance(b, tuple) else a % b
+            except (TypeError, ValueError) as e:
+                if concrete:
+                    # '%d' % None and the like raise at run time
+                    raise FoldRaise(type(e).__name__, e.args, n)
+                return Opaque('format')
             except Exception:
                 return Opaque('format')
         try:
